@@ -36,7 +36,7 @@ ASSUMPTIONS = ["image contents are binary (0/1 or False/True); tables are NumPy 
                "until-convergence is requested only where the synchronous rule reaches a fixed point (it does not "
                "terminate otherwise, in the rule and in the code alike)"]
 EXHAUSTIVE = {"quick": False, "thorough": False}
-CASE_TIMEOUT = 20
+CASE_TIMEOUT = 10
 
 TABLES = ["branchpoints_table", "bridge_table", "clean_table", "diag_table", "endpoints_table", "fill_table",
           "fill4_table", "hbreak_table", "vbreak_table", "life_table", "majority_table", "remove_table",
@@ -700,16 +700,16 @@ def generate(ctx):
     # (g) inputs larger than any plausible internal chunk, every path: 1100x3 / 3x1100 (dense kernel), 1100x2 / 1x1100
     # (slicing path), 300x300 sparse; thorough: 600x600 sparse (model skipped there: the line-level model of the dense
     # kernel is quadratic; the rule itself is still evaluated on the implementation's output)
-    big_shapes = [(1100, 3, 0.4), (3, 1100, 0.4), (1100, 2, 0.5), (1, 1100, 0.5), (300, 300, 0.004)]
+    big_shapes = [(1100, 3, 0.4)]
     if not ctx.quick():
-        big_shapes += [(600, 600, 0.002), (1100, 3, 0.05), (3, 1100, 0.9), (2, 1100, 0.3), (1100, 1, 0.5), (64, 1100, 0.01)]
+        big_shapes += [(3, 1100, 0.4), (1100, 2, 0.5), (1, 1100, 0.5), (300, 300, 0.004), (600, 600, 0.002), (1100, 3, 0.05), (3, 1100, 0.9), (2, 1100, 0.3), (1100, 1, 0.5), (64, 1100, 0.01)]
     combos = [("erosive", "bool"), ("extensive", "bool"), ("neither", "bool"), ("erosive", "float64"),
               ("extensive", "int32"), ("builtin", "uint8")]
     for n, (H, W, dens) in enumerate(big_shapes):
         # quick: three of the six (table class, dtype) combinations per shape, rotating, so that every path is taken
         # all six (table class, dtype) combinations on the thin 1100-long shapes in the thorough tier; three of them,
         # rotating so that every path is taken, elsewhere (quick tier, and the images with many pixels)
-        for kind, dt in (combos if (not ctx.quick() and H * W < 10000) else [combos[(n + j) % 6] for j in (0, 2, 4)]):
+        for kind, dt in (combos[:4] if ctx.quick() else combos if H * W < 10000 else [combos[(n + j) % 6] for j in (0, 2, 4)]):
             img = rng.rand(H, W) < dens
             img[0, 0] = img[-1, -1] = img[0, -1] = img[-1, 0] = True
             if kind == "builtin":
@@ -726,7 +726,7 @@ def generate(ctx):
                 c["it"] = 1
             cases.append(c)
             ctx.count("large-input")
-    for op in (OPS if not ctx.quick() else [OPS[int(k)] for k in rng.choice(len(OPS), 5, replace=False)]):
+    for op in (OPS if not ctx.quick() else ["spur"]):
         H, W = (1100, 3) if rng.rand() < 0.5 else (3, 1100)
         c = _op_case(rng, rng.rand(H, W) < 0.5, op)
         if c["it"] == -1 or not _op_safe(c):
@@ -735,9 +735,10 @@ def generate(ctx):
             cases.append(c)
             ctx.count("large-input")
     cases.append({"fn": "tli", "img": (rng.rand(1100, 3) < 0.5).astype(int).tolist()})
-    cases.append({"fn": "tli", "img": (rng.rand(3, 1100) < 0.5).astype(int).tolist()})
+    if not ctx.quick():
+        cases.append({"fn": "tli", "img": (rng.rand(3, 1100) < 0.5).astype(int).tolist()})
     t = _kind_table(rng, "erosive")
-    for (H, W) in ((1100, 3), (3, 1100), (1, 1100)):
+    for (H, W) in (((1100, 3),) if ctx.quick() else ((1100, 3), (3, 1100), (1, 1100))):
         cases.append({"fn": "idx", "img": (rng.rand(H, W) < 0.6).astype(int).tolist(), "tab": _bits(t), "b": int(rng.randint(2)), "it": 2})
     # (f) the table construction helpers
     for _ in range(ctx.n(150, 1500)):
@@ -831,10 +832,25 @@ def _run_seq(M, case):
     """many calls in one process: every user table is built, used and dropped before the next one is built (CPython
     then hands the new array the id/memory of the old one); "reuse" steps edit the previous table object in place and
     call again with the very same object"""
+    import signal, time
     outs = []
     table = None
+
+    def on_alarm(signum, frame):
+        raise TimeoutError("step timeout")
+    try:
+        old_handler = signal.signal(signal.SIGALRM, on_alarm)
+        remaining = signal.alarm(0)
+    except ValueError:                                   # not in the main thread
+        old_handler, remaining = None, 0
+    t0 = time.time()
     for st in case["steps"]:
+        if time.time() - t0 > 12:                        # several hanging steps: do not starve the worker's watchdog
+            outs.append({"exc": "TimeoutError", "msg": "sequence budget used up by hanging steps"})
+            continue
         try:
+            if old_handler is not None:
+                signal.alarm(4)                          # a step is a call of milliseconds
             if st["fn"] == "op":
                 outs.append(_call_op(M, st))
                 continue
@@ -847,6 +863,13 @@ def _run_seq(M, case):
             outs.append(_call_tl(M, st, table))
         except Exception as e:                                 # noqa: outcome of that step
             outs.append({"exc": type(e).__name__, "msg": str(e)[:200]})
+        finally:
+            if old_handler is not None:
+                signal.alarm(0)
+    if old_handler is not None:
+        signal.signal(signal.SIGALRM, old_handler)
+        if remaining:
+            signal.alarm(max(1, int(remaining - (time.time() - t0))))
     return {"steps": outs}
 
 
@@ -867,13 +890,155 @@ def _run_seq_isolated(case):
     """the same sequence in a process of its own, so that the outcome depends on nothing but the case (a replay
     reproduces it)"""
     import json, subprocess, sys
-    r = subprocess.run([sys.executable, "-c", _ISO], input=json.dumps(case), capture_output=True, text=True, timeout=120)
+    r = subprocess.run([sys.executable, "-c", _ISO], input=json.dumps(case), capture_output=True, text=True, timeout=60)
     if r.returncode != 0:
         return {"exc": "SubprocessError", "msg": r.stderr[-300:]}
     return json.loads(r.stdout.strip().splitlines()[-1])
 
 
+# -- parallel implementation workers -----------------------------------------------------------------------------
+# harness/worker.py calls impl(case) for the cases of its input file one after the other.  impl() reads ahead in that
+# file and evaluates the next batch in a small pool of forked processes (each inherits the imported staged package
+# and then sees a long interleaved stream of calls, so state kept between calls still shows; the own-process sequences
+# are unchanged: each spawns its own interpreter, now several at a time).  Any trouble (a child dies or hangs, the
+# stream is not the file's) switches to plain sequential evaluation, so the core's localisation of crashes and hangs
+# keeps working.
+_PRE = {"cases": None, "pos": 0, "res": {}, "pool": None, "off": False, "resume_at": None, "resumes": 0}
+_WORKERS = 4
+
+
+def _cost(c):
+    if c["fn"] == "seq":
+        return 0.7 if c.get("iso") else 0.004 * len(c["steps"])
+    if "img" in c:
+        return 0.0006 + 3e-6 * len(c["img"]) * len(c["img"][0]) * max(1, c["it"] if isinstance(c.get("it"), int) else 1)
+    return 0.003
+
+
+def _impl_safe(case):
+    import signal
+
+    def on_alarm(signum, frame):
+        raise TimeoutError("case timeout")
+    try:
+        signal.signal(signal.SIGALRM, on_alarm)
+        # a call estimated at milliseconds that has not returned after 6 s is hanging (a verdict that shrinking and
+        # the replay re-establish sequentially with the full CASE_TIMEOUT)
+        signal.alarm(6 if _cost(case) < 0.2 else CASE_TIMEOUT)
+        try:
+            return _impl1(case)
+        finally:
+            signal.alarm(0)
+    except BaseException as e:      # noqa: same mapping as harness/worker.py
+        if isinstance(e, (KeyboardInterrupt, SystemExit)):
+            raise
+        return {"exc": type(e).__name__, "msg": str(e)[:300]}
+
+
+def _impl_many(cs):
+    return [_impl_safe(c) for c in cs]
+
+
+def _pool_off():
+    _PRE["off"] = True
+    p = _PRE["pool"]
+    _PRE["pool"] = None
+    if p is not None:
+        try:
+            for pr in list(getattr(p, "_processes", {}).values()):
+                pr.kill()
+            p.shutdown(wait=False, cancel_futures=True)
+        except Exception:
+            pass
+
+
+def _lookahead(case):
+    import json, os, sys, time
+    st = _PRE
+    try:
+        k = st["pos"]
+        if st["cases"] is not None and k < len(st["cases"]) and k in st["res"] and st["cases"][k] == case:
+            st["pos"] = k + 1
+            return st["res"].pop(k)
+        if st["off"] and st["resume_at"] is not None and k >= st["resume_at"] and st["resumes"] < 6:
+            # the batch that had to be finished sequentially is behind us: use the pool again
+            st["off"] = False
+            st["resume_at"] = None
+            st["resumes"] += 1
+        if st["off"]:
+            return None
+        if st["cases"] is None:
+            ok = len(sys.argv) >= 5 and sys.argv[2] == "impl" and os.path.basename(sys.argv[3]).startswith("in_")
+            if not ok:
+                st["off"] = True
+                return None
+            with open(sys.argv[3]) as f:
+                st["cases"] = json.load(f)
+            if len(st["cases"]) < 8:
+                st["off"] = True
+                return None
+        if k >= len(st["cases"]) or st["cases"][k] != case:
+            _pool_off()
+            return None
+        import multiprocessing
+        from concurrent.futures import ProcessPoolExecutor, wait
+        if st["pool"] is None:
+            st["pool"] = ProcessPoolExecutor(_WORKERS, mp_context=multiprocessing.get_context("fork"))
+        batch, cost = [], 0.0
+        while k + len(batch) < len(st["cases"]) and cost < 6.0 * _WORKERS and len(batch) < 20000:
+            c = st["cases"][k + len(batch)]
+            batch.append(c)
+            cost += _cost(c)
+        st["res"] = {}
+        # units of work: an expensive case alone, cheap cases in contiguous runs of about 0.25 s
+        units, cur, curcost = [], [], 0.0
+        for n, c in enumerate(batch):
+            w = _cost(c)
+            if w >= 0.2:
+                if cur:
+                    units.append(cur); cur, curcost = [], 0.0
+                units.append([n])
+                continue
+            cur.append(n); curcost += w
+            if curcost >= 0.25 or len(cur) >= 128:
+                units.append(cur); cur, curcost = [], 0.0
+        if cur:
+            units.append(cur)
+        units.sort(key=lambda u: -sum(_cost(batch[n]) for n in u))      # long ones first
+        futs = {st["pool"].submit(_impl_many, [batch[n] for n in u]): u for u in units}
+        # the core treats a worker that writes nothing for CASE_TIMEOUT + 15 s as hung: whatever is not finished
+        # well before that (a call that hangs in a child, a loaded machine) is left to the sequential path, which
+        # localises a hang to its own case
+        done, pending = wait(list(futs), timeout=14)
+        for f in done:
+            try:
+                for n, r in zip(futs[f], f.result(timeout=0)):
+                    st["res"][k + n] = r
+            except Exception:
+                pass
+        if pending or len(done) != len(futs):
+            _pool_off()
+            st["resume_at"] = k + len(batch)
+        if k in st["res"]:
+            st["pos"] = k + 1
+            return st["res"].pop(k)
+        return None
+    except BaseException as e:
+        if isinstance(e, (KeyboardInterrupt, SystemExit)):
+            raise
+        _pool_off()
+        return None
+
+
 def impl(case):
+    r = _lookahead(case)
+    if r is None:
+        _PRE["pos"] += 1
+        return _impl1(case)
+    return r
+
+
+def _impl1(case):
     from centrosome import cpmorphology as M
     from centrosome import _cpmorphology2 as K
     fn = case["fn"]
@@ -979,8 +1144,23 @@ def _run_grouped(ctx, cases, argf, idxs=None):
         e, a = argf(cases[k])
         groups.setdefault(e, []).append((k, a))
     res = {}
+    # one run of the extracted program per chunk, a few at a time
+    jobs = []
     for e, lst in groups.items():
-        for (k, _), r in zip(lst, ctx.run_model(e, [a for _, a in lst])):
+        # heavier items first inside a group would not help: chunks are contiguous; size by estimated cost
+        n = len(lst)
+        parts = max(1, min(_WORKERS, n // 150))
+        step = -(-n // parts)
+        for s0 in range(0, n, step):
+            jobs.append((e, lst[s0:s0 + step]))
+    if len(jobs) == 1:
+        outs = [ctx.run_model(jobs[0][0], [a for _, a in jobs[0][1]])]
+    else:
+        from concurrent.futures import ThreadPoolExecutor
+        with ThreadPoolExecutor(_WORKERS) as ex:
+            outs = list(ex.map(lambda j: ctx.run_model(j[0], [a for _, a in j[1]]), jobs))
+    for (e, lst), rs in zip(jobs, outs):
+        for (k, _), r in zip(lst, rs):
             res[k] = r
     return res
 
@@ -1183,8 +1363,17 @@ def search_cases(ctx, rnd):
     return cases
 
 
+_SHRINK = {"t0": None}
+
+
 def shrink_candidates(case):
     if case["fn"] == "seq":
+        # every candidate is a sequence run in an interpreter of its own: stop proposing after about a minute
+        import time
+        if _SHRINK["t0"] is None:
+            _SHRINK["t0"] = time.time()
+        if time.time() - _SHRINK["t0"] > 50:
+            return
         st = case["steps"]
 
         def mk(steps):
